@@ -282,6 +282,7 @@ package hackpadfs
 //@   props C06 C07 C08 C04 C05
 //@   deterministic
 //@   requires fs != nil
+//@   ensures "info" implies(err == nil, info != nil)
 //@   ensures "mount" implies(implements(fs, MountFS),
 //@                      info == old(ret("hackpadfs.LstatOrStat", 0, mountOf(fs, name), subOf(fs, name))) &&
 //@                      translated(err, old(ret("hackpadfs.LstatOrStat", 1, mountOf(fs, name), subOf(fs, name))), name, old(subOf(fs, name))) &&
@@ -334,9 +335,9 @@ package hackpadfs
 // RemoveAll: native and mount branches exact. The fallback recursion is only pinned down where its sequence of
 // primitive calls is fixed: a missing name, a non-directory, and a directory whose listing is empty; for those the
 // helper must return the error of the primitive that failed (C08: never report success for work not done).
-//@ spec raStatErr(w int, fs FS, p string) := retW("hackpadfs.Stat", 1, w, fs, p)
-//@ spec raStatInfo(w int, fs FS, p string) := retW("hackpadfs.Stat", 0, w, fs, p)
-//@ spec raW1(w int, fs FS, p string) := worldAfterW("hackpadfs.Stat", w, fs, p)
+//@ spec raStatErr(w int, fs FS, p string) := retW("hackpadfs.LstatOrStat", 1, w, fs, p)
+//@ spec raStatInfo(w int, fs FS, p string) := retW("hackpadfs.LstatOrStat", 0, w, fs, p)
+//@ spec raW1(w int, fs FS, p string) := worldAfterW("hackpadfs.LstatOrStat", w, fs, p)
 //@ spec raIsDir(w int, fs FS, p string) := retW("hackpadfs.(FileInfo).IsDir", 0, raW1(w, fs, p), raStatInfo(w, fs, p))
 //@ spec raListErr(w int, fs FS, p string) := retW("hackpadfs.ReadDir", 1, raW1(w, fs, p), fs, p)
 //@ spec raList(w int, fs FS, p string) := retW("hackpadfs.ReadDir", 0, raW1(w, fs, p), fs, p)
@@ -350,12 +351,12 @@ package hackpadfs
 //@   requires fs != nil
 //@   propagates [C08] removeAll
 //@   propagates [C08] ReadDir
-//@   propagates [C08] Stat unless errIs(e, ErrNotExist)
+//@   propagates [C08] LstatOrStat unless errIs(e, ErrNotExist)
 //@   propagates [C08] Remove unless errIs(e, ErrNotExist)
 //@   modifies world()
 //@   loop 1 invariant "any" fs != nil && rangeindex >= -1 && rangeindex < max(len(dir), 1) && (len(dir) > 0 || rangeindex == -1) &&
 //@                      (len(dir) > 0 || world() == old(raW2(world(), fs, path))) && dir == old(raList(world(), fs, path))
-//@   loop 1 invariant "all-children-so-far-removed" !failed("removeAll") && !failed("Stat") && !failed("ReadDir") && !failed("Remove")
+//@   loop 1 invariant "all-children-so-far-removed" !failed("removeAll") && !failed("LstatOrStat") && !failed("ReadDir") && !failed("Remove")
 //@   loop 1 invariant "first" implies(rangeindex == -1, world() == old(raW2(world(), fs, path)))
 //@   loop 1 invariant "first-ok" implies(rangeindex >= 0, raChildErr(old(raW2(world(), fs, path)), fs, path, dir[0]) == nil)
 //@   loop 1 modifies world()
